@@ -1,16 +1,18 @@
 """C07 - quadrature rules are exact on their polynomial class and converge at order (DESIGN 4/C07)."""
 LEVEL = "model_checking"
-RULE = ("P1: in exact rationals TLC checks the code-shaped trapezoid rule (interior nodes weight 1, end points 1/2) exact for affine "
-        "integrands for every panel count 1..NT (quick 5, thorough 12) on every integer interval in -2..2 (incl. a > b, a = b), "
-        "sign change under swapped limits, linearity, and the (b-a) h^2/12 max|f''| bound on monomials; the Romberg tableau as "
-        "coded (interval halving, Richardson factors 4^m - 1, stopping rule) exact for degree <= 2k-1 with k levels and within "
-        "16 eps of the exact integral with a tolerance; P2: every case is replayed: trapz against the rule's OWN exact value "
-        "(pins every weight, also for non-exact degrees) incl. big intervals +-500 / 1000 with up to 4096 panels, sign and "
-        "linearity on the implementation; romberg against the exact tableau value for budgets 2..5 and eps in {0, 1/64, 1/1000} "
-        "(cases whose stopping comparison is within a factor 4 of eps are not judged); quad5 exact on monomials up to degree "
-        "DMax (quick 12, thorough 19), reversed and empty intervals, sign, linearity; sampled trapezoid on integer ordinates "
-        "with uniform / non-uniform dyadic abscissae, unit spacing and dx, lengths 2..64 (bit-exact). "
-        "Case class = (rule, degree class, interval orientation, panel/level class).")
+RULE = ("P1: in exact rationals TLC checks the code-shaped trapezoid rule (interior nodes weight 1, end points 1/2) "
+        "exact for affine integrands for every panel count 1..NT (quick 5, thorough 12) on every integer interval in "
+        "-2..2 (incl. a > b, a = b), sign change under swapped limits, linearity, and the (b-a) h^2/12 max|f''| bound "
+        "on monomials; the Romberg tableau as coded (interval halving, Richardson factors 4^m - 1, stopping rule) exact"
+        " for degree <= 2k-1 with k levels and within 16 eps of the exact integral with a tolerance; P2: every case is "
+        "replayed: trapz against the rule's OWN exact value (pins every weight, also for non-exact degrees) incl. big "
+        "intervals +-500 / 1000 with up to 4096 panels, sign and linearity on the implementation; romberg against the "
+        "exact tableau value for budgets 2..5 and eps in {0, 1/64, 1/1000} (cases whose stopping comparison is within a"
+        " factor 4 of eps are not judged); quad5 exact on monomials up to degree DMax (quick 12, thorough 19), reversed"
+        " and empty intervals, sign, linearity; sampled trapezoid on integer ordinates with uniform / non-uniform "
+        "dyadic abscissae, unit spacing and dx, lengths 2..64 (bit-exact). Cubics at level budgets 8, 12, 16, 17, 18, "
+        "20 with tolerance 0 must be integrated exactly (Inv_RombergExact holds for every budget); the crate is built "
+        "with overflow checks. Case class = (rule, degree class, interval orientation, panel/level class).")
 ASSUMPTIONS = ["polynomial integrands with small integer coefficients and dyadic limits (exact rational oracle); the catalogue of transcendental integrands is not reached",
                "tolerance 2^-40 of the integral's magnitude scale (measured margin > 1e4, DESIGN appendix D)"]
 EXHAUSTIVE = True
